@@ -674,6 +674,65 @@ def _check_find_config(ctx: Ctx) -> None:
         if may_be_pyproject:
             ctx.ob("R-CONFIG-K5", f"{fi.qual} :: {norm(r.ast)} pyproject needs [tool.flowmark]", sect_ok,
                    "a pyproject.toml may only be chosen when it has a [tool.flowmark] table", where(fi, r))
+# ... and "has the table" is a presence test: an empty [tool.flowmark] table is still a table. A guard that takes
+            # the truth value of the table itself (a helper returning the dict or None, or a local holding it) treats the
+            # empty one as absent.
+            def boolean_shaped(e: ast.AST, at, fl_, depth: int = 0) -> bool:
+                if isinstance(e, ast.Constant):
+                    return isinstance(e.value, bool)
+                if isinstance(e, ast.Compare):
+                    return True
+                if isinstance(e, ast.UnaryOp) and isinstance(e.op, ast.Not):
+                    return True
+                if isinstance(e, ast.BoolOp):
+                    return all(boolean_shaped(v_, at, fl_, depth) for v_ in e.values)
+                if isinstance(e, ast.IfExp):
+                    return boolean_shaped(e.body, at, fl_, depth) and boolean_shaped(e.orelse, at, fl_, depth)
+                if isinstance(e, ast.Call) and isinstance(e.func, ast.Name) and e.func.id in ("isinstance", "bool", "any", "all", "callable", "hasattr"):
+                    return True
+                if isinstance(e, ast.Call) and isinstance(e.func, ast.Attribute) and e.func.attr in ("startswith", "endswith", "is_file", "is_dir", "exists", "isdigit"):
+                    return True
+                if isinstance(e, ast.Name) and depth < 3:
+                    ds_ = fl_.reaching(at, e.id)
+                    return bool(ds_) and all(d.kind == "assign" and d.value is not None and boolean_shaped(d.value, d.node, fl_, depth + 1) for d in ds_)
+                return False
+
+            def leaves(e: ast.AST) -> list[ast.AST]:
+                if isinstance(e, ast.BoolOp):
+                    return [x for v_ in e.values for x in leaves(v_)]
+                if isinstance(e, ast.UnaryOp) and isinstance(e.op, ast.Not):
+                    return leaves(e.operand)
+                return [e]
+
+            for b_, lab_ in guards:
+                if b_.kind != "test" or not isinstance(b_.ast, ast.expr):
+                    continue
+                for a_ in leaves(b_.ast):
+                    valued: list[str] = []
+                    about_section = False
+                    if isinstance(a_, ast.Call):
+                        t_ = prog.resolve_call(fi, a_)
+                        if not (isinstance(t_, list) and len(t_) == 1) or isinstance(t_[0].node, ast.Lambda):
+                            continue
+                        g_ = t_[0]
+                        summ = prog.summary(g_, True, 0)
+                        cs_ = {s_[1] for s_ in summ.sources if s_[0] == "const"} if summ is not None else set()
+                        about_section = "'flowmark'" in cs_ and "'tool'" in cs_
+                        gflow = prog.flow(g_)
+                        valued = [norm(r_.ast.value)[:40] for r_ in gflow.cfg.returns() if r_.ast.value is not None
+                                  and not boolean_shaped(r_.ast.value, r_, gflow) and not (isinstance(r_.ast.value, ast.Constant) and r_.ast.value.value is None)]
+                    elif isinstance(a_, ast.Name):
+                        cs_ = {s_[1] for s_ in prog.slice(fi, a_, b_).sources if s_[0] == "const"}
+                        about_section = "'flowmark'" in cs_ and "'tool'" in cs_
+                        valued = [norm(d.value)[:40] for d in flow.reaching(b_, a_.id) if d.kind == "assign" and d.value is not None
+                                  and not boolean_shaped(d.value, d.node, flow) and not (isinstance(d.value, ast.Constant) and d.value.value is None)]
+                    else:
+                        continue
+                    if not about_section:
+                        continue
+                    ctx.ob("R-CONFIG-K5", f"{fi.qual} :: the [tool.flowmark] test is a presence test", not valued,
+                           f"`{norm(a_)[:50]}` can be the table itself ({valued}); taken as a truth value, an empty `[tool.flowmark]` table counts as "
+                           "no table and the search walks past a pyproject.toml that does configure flowmark", where(fi, b_))
     ctx.require("R-CONFIG-K5", "successful returns of find_config_file", n_ret, 1)
     # the walk starts at the resolved start directory and moves to .parent
     moves = [n for n in flow.cfg.nodes if n.kind == "stmt" and isinstance(n.ast, ast.Assign) and ".parent" in ast.unparse(n.ast.value)]
